@@ -87,6 +87,12 @@ def Options.new (q b g : Nat) (e : Ext) (ff fr : Nat) : Res Options :=
   let o : Options := ⟨q, b, g, e, ff, fr⟩
   if o.accepted then .ok o else .panic "ProofOptions::new assertion"
 
+-- ------------------------------------------------------------------ Context
+/-- the size limits of `Context::new` (assertions) and `Context::read_from` (errors): trace length
+    and LDE domain size fit a `u32` -/
+def contextAccepted (o : Options) (traceLen : Nat) : Bool :=
+  decide (traceLen ≤ 4294967295) && decide (traceLen * o.blowup ≤ 4294967295)
+
 -- ------------------------------------------------------------------ Context::num_modulus_bits
 /-- `u8::leading_zeros` of a non-zero byte -/
 def clz8 (b : Nat) : Nat := 7 - b.log2
@@ -351,6 +357,11 @@ def extCheck (v : VerifierSide) (p : ProofHead) : Out :=
 def policyCheck (a : Acceptable) (v : VerifierSide) (p : ProofHead) : Out :=
   validate a p.options (securityLevel p.options p.modulusBytes p.traceLen v.cr)
 
+/-- the query positions are drawn from the LDE domain: `num_queries >= lde_domain_size` is refused
+    (`draw_integers` would assert) -/
+def queriesCheck (p : ProofHead) : Out :=
+  if p.traceLen * p.options.blowup ≤ p.options.numQueries then .reject .unacceptableProofOptions else .pass
+
 /-- the top of `verify()` as in the snapshot the checks were first run on: policy, then
     `context.to_elements()`, `AIR::new`, extension support, and only then (inside
     `VerifierChannel::new`) the base-field comparison -/
@@ -361,10 +372,12 @@ def verifyTopOld (a : Acceptable) (v : VerifierSide) (p : ProofHead) : Out :=
   seqOut (extCheck v p) <|
   fieldCheck v p
 
-/-- the top of `verify()` as it is now: the base-field comparison comes first -/
+/-- the top of `verify()` as it is now: the base-field comparison comes first, then the policy, then
+    the comparison of the number of queries with the LDE domain size -/
 def verifyTop (a : Acceptable) (v : VerifierSide) (p : ProofHead) : Out :=
   seqOut (fieldCheck v p) <|
   seqOut (policyCheck a v p) <|
+  seqOut (queriesCheck p) <|
   seqOut (ofRes (contextToElements p.modulusBytes v.elementBytes)) <|
   seqOut (if v.airNewReturns then .pass else .panic "AIR::new") <|
   seqOut (extCheck v p) <|
